@@ -4,6 +4,12 @@ import hashlib, json, os, re, time
 VERIF = os.path.dirname(os.path.dirname(os.path.abspath(__file__)))
 
 
+def family(nid):
+    """function a closure belongs to (closure numbers change when closures are added or removed)"""
+    i = nid.find("::{closure")
+    return nid if i < 0 else nid[:i]
+
+
 class Rule:
     def __init__(self, ctx, name, desc, floor=0):
         self.ctx = ctx
@@ -136,6 +142,7 @@ def finish(ctx, level, explanation, trusted_base=None, checker_cmd=None):
             "call_edges": sum(len(n["calls"]) for n in f.inst.values()) if f else 0,
             "fact_build_s": round(getattr(f, "build_s", 0.0), 2) if f else 0,
             # private helpers unknown to the rules' baseline decomposition, inlined back before the rules ran (rules/inline.py)
+            "renamed_back": getattr(f, "renamed", {}) if f else {},
             "inlined_unknown_helpers": {k: sorted(set(v)) for k, v in sorted(getattr(f, "inlined", {}).items())} if f else {},
         },
         "known_findings_hit": [v["key"] for v, _ in known_hit],
